@@ -10,6 +10,7 @@ C15 — JSON serialization round-trips every serializable parameter value.
    `serialize_value`/`deserialize_value` and under `subset=`."
 
 The statement at full strength (`C15_full`) is false of the code: `C15_full_refuted`
+(a tuple nested in a Tuple value comes back as a list) and `year_below_1000_not_restored`
 (a Date in the year 999).  What is proved is `roundtrip_partial` with the two extra
 hypotheses spelled out: years have four digits, and the elements of untyped
 containers are JSON-native (no nested tuple, no non-string key; a
@@ -70,21 +71,38 @@ def C15_full : Prop :=
   ∀ (p : Param) (v : PyVal), p.validB v = true → v.finite = true → inStatement p.cfg v = true →
     RoundTrips p v
 
+def witnessTuple : Param :=
+  { name := "t", cfg := .tuple none, allowNone := .undef, default := some (.tuple [.int 0]),
+    doc := none, label := "T" }
+
+/-- **C15 is false of the code as stated** (inherent to JSON): `Tuple` holding `((1,),)` comes back
+as `([1],)` — only the top level of a Tuple parameter is turned back into a tuple. -/
+theorem C15_full_refuted : ¬ C15_full := by
+  intro h
+  obtain ⟨j, h1, _, h3⟩ := h witnessTuple (.tuple [.tuple [.int 1]]) (by decide) (by decide) (by decide)
+  simp [serializeValue, witnessTuple, PCfg.serialize, asList, dumps, dumpsL] at h1
+  subst h1
+  simp [deserializeValue, witnessTuple, loads, loadsL, PCfg.deserialize, isNullish, asTuple] at h3
+
 def witnessParam : Param :=
   { name := "d", cfg := .date, allowNone := .undef, default := some .none, doc := none, label := "D" }
 
-/-- **C15 is false of the code as stated**: `Date` holding `datetime(999, 1, 1)` serialises to
-`'999-01-01T00:00:00.000000'` (unpadded `%Y`), which `strptime` rejects. -/
-theorem C15_full_refuted : ¬ C15_full := by
-  intro h
-  obtain ⟨j, h1, _, h3⟩ := h witnessParam (.datetime 999 1 1 0 0 0 0) (by decide) (by decide) (by decide)
+/-- a second, independent refutation (a defect of the code, not of JSON): `Date` holding
+`datetime(999, 1, 1)` serialises to `'999-01-01T00:00:00.000000'` (unpadded `%Y`), which
+`strptime` rejects with ValueError. -/
+theorem year_below_1000_not_restored : ¬ RoundTrips witnessParam (.datetime 999 1 1 0 0 0 0) := by
+  intro ⟨j, h1, _, h3⟩
   simp [serializeValue, witnessParam, PCfg.serialize, strftimeDateTime, dumps, fmtDateTime] at h1
   subst h1
   simp [deserializeValue, witnessParam, loads, PCfg.deserialize, isNullish, strptimeDateTime, yearDigits] at h3
 
-/-- the same witness one year later does round-trip: the refutation hinges on the year width -/
+/-- the same parameter one year later does round-trip: the failure hinges on the year width -/
 example : RoundTrips witnessParam (.datetime 1000 1 1 0 0 0 0) :=
   ⟨.str (fmtDateTime 1000 1 1 0 0 0 0), rfl, rfl, rfl⟩
+
+/-- and the Tuple witness with a list inside instead of a tuple does round-trip -/
+example : RoundTrips witnessTuple (.tuple [.list [.int 1]]) :=
+  ⟨.arr [.arr [.int 1]], rfl, rfl, rfl⟩
 
 /-! ## The provable part -/
 
